@@ -204,6 +204,9 @@ structure World where
   linkOut : List (Bytes × Bytes) := []       -- lines queued on them (peer, line), oldest first
   /-- s3 storage strategy (C18): the object store, and which PUTs fail (0-based count over the run) -/
   s3mode : Bool := false
+  /-- sessions on HOLD (a client that does not read): what is pushed to them is kept until RELEASE -/
+  held : List Nat := []
+  heldBuf : List (Nat × Bytes) := []
   /-- strategy s3_patition with this many partitions (0 = the plain s3 strategy) -/
   s3parts : Nat := 0
   objs : Objs := []
@@ -386,7 +389,21 @@ def step (w : World) (line : String) : World × List String :=
       -- a line pushed to a session that no longer exists goes nowhere (its receiver is gone; the sender may still be registered
       -- as a watcher of a database the session had left before it closed)
       let shown := shown.filter fun e => match e with | .push s _ => (AL.get? n.sessions s).isSome | _ => true
-      (w, respStr r :: evLines shown ++ dumpNode n)
+      -- pushes to a session on HOLD wait in its queue (the queue of a connection is unbounded for its senders: nothing is lost)
+      let heldNow := shown.filterMap fun e => match e with | .push s l => if w.held.contains s then some (s, l) else none | _ => none
+      let shown := shown.filter fun e => match e with | .push s _ => !w.held.contains s | _ => true
+      ({ w with heldBuf := w.heldBuf ++ heldNow }, respStr r :: evLines shown ++ dumpNode n)
+    | none => (w, ["E bad-op"])
+  | "HOLD" =>
+    match Bytes.parseNat a1 with
+    | some sid => ({ w with held := sid :: w.held }, dumpNode w.node)
+    | none => (w, ["E bad-op"])
+  | "RELEASE" =>
+    match Bytes.parseNat a1 with
+    | some sid =>
+      let mine := w.heldBuf.filter (·.1 = sid)
+      ({ w with held := w.held.filter (· != sid), heldBuf := w.heldBuf.filter (·.1 != sid) },
+       (mine.map fun (s, l) => s!"M {s} {esc l}") ++ dumpNode w.node)
     | none => (w, ["E bad-op"])
   | "TCPOPEN" =>
     match Bytes.parseNat a1 with
